@@ -143,6 +143,11 @@ def run(chk):
                 "non-trivial = at least two fits or a mode update (something could go stale)")
     probe = rng.integers(-16, 17, size=(3, 12)) / 4.0
     cases = [gen_case(rng, thorough) for _ in range(N)]
+    # corpus (runs first): the recorded known finding - Identity() keeps the number of examples of its first fit
+    crng = np.random.default_rng(1234)
+    cases.insert(0, {"basis": "Identity", "bmodes": None, "opt": {"kind": "QR"}, "ctor_n": ["none"],
+                     "datasets": {1: crng.integers(-24, 25, size=(3, 6)) / 8.0, 2: crng.integers(-24, 25, size=(5, 6)) / 8.0},
+                     "history": [["fit", 1, 7], ["fit", 2, 7]]})
     # ---- stage O: from-scratch references
     for case in cases:
         jc = M.jsonable(case)
